@@ -72,6 +72,8 @@ type libSig struct {
 
 var libSigs = map[string]libSig{
 	"strings.TrimSpace": {[]string{"Str"}, "Str"},
+	"strings.TrimSuffix": {[]string{"Str", "Str"}, "Str"},
+	"strings.TrimPrefix": {[]string{"Str", "Str"}, "Str"},
 	"strings.HasPrefix": {[]string{"Str", "Str"}, "Bool"},
 	"strings.HasSuffix": {[]string{"Str", "Str"}, "Bool"},
 	"strings.Contains":  {[]string{"Str", "Str"}, "Bool"},
@@ -317,6 +319,11 @@ func (e *Exec) callLib(x *ssa.Call, f *ssa.Function) {
 		v := e.def(x.Name()+"_0", "Int", "(L_strconv_Atoi_0 "+s+")")
 		er := e.def(x.Name()+"_1", "Err", "(L_strconv_Atoi_1 "+s+")")
 		e.setVal(x, val{tup: []val{{t: v}, {t: er}}})
+		return
+	case "strconv.Itoa":
+		// the decimal text of an int: the same symbol the Sprintf model and the contract builtin itoa use
+		e.g.libDep("itoa")
+		e.setVal(x, val{t: e.def(x.Name()+"_0", "Str", "(L_itoa "+e.term(cc.Args[0])+")")})
 		return
 	case "slices.SortFunc":
 		e.sortFunc(x)
